@@ -19,6 +19,7 @@ def handlers : List (String × (String → List String → Option String)) := [
   ("prim.", Drv.Prim.handle),
   ("kex.", Drv.Kex.handle),
   ("voucher.", Drv.Voucher.handle),
+  ("chunk.", Drv.Chunk.handle),
 ]
 
 def dispatch (line : String) : String :=
@@ -29,11 +30,6 @@ def dispatch (line : String) : String :=
     match handlers.find? (fun h => cmd.startsWith h.1) with
     | some (_, f) => (f cmd args).getD "bad-op"
     | none => "bad-op"
-    let r :=
-      if cmd.startsWith "cbor." then Drv.Cbor.handle cmd args
-      else if cmd.startsWith "chunk." then Drv.Chunk.handle cmd args
-      else none
-    r.getD "bad-op"
 
 partial def loop (hin : IO.FS.Stream) (hout : IO.FS.Stream) : IO Unit := do
   let line ← hin.getLine
